@@ -1008,7 +1008,88 @@ def rule_zero_is_present(ctx: Ctx, rep: Report) -> None:
     rep.floor(rule, 5)
 
 
+ELEMENT_MIN_SIZE = {"TxIn": "MIN_TX_IN_SIZE", "TxOut": "MIN_TX_OUT_SIZE", "input": "MIN_TX_IN_SIZE", "output": "MIN_TX_OUT_SIZE"}
+
+
+def rule_count_bound_kind(ctx: Ctx, rep: Report) -> None:
+    """C05.count_bound_kind: the count a parser refuses above is the number of
+    *those* elements a block has room for: MAX_BLOCK_WEIGHT // (4 * the
+    element's minimum size), with the minimum size of the element that is then
+    parsed count times. A list of outputs bounded by the inputs' count refuses
+    a valid transaction of 24 391..111 111 outputs, which serialize writes."""
+    rule = "C05.count_bound_kind"
+    lim = "btclib.tx.limits"
+    w, f4 = ctx.const("btclib.consensus", "MAX_BLOCK_WEIGHT"), ctx.const("btclib.consensus", "WITNESS_SCALE_FACTOR")
+    if not (isinstance(w, int) and isinstance(f4, int)):
+        raise AnalysisError("MAX_BLOCK_WEIGHT / WITNESS_SCALE_FACTOR do not fold")
+
+    def expected(kind: str) -> int:
+        m = ctx.const(lim, ELEMENT_MIN_SIZE[kind])
+        if not isinstance(m, int):
+            raise AnalysisError(f"{ELEMENT_MIN_SIZE[kind]} does not fold")
+        return w // (m * f4)
+
+    for q, fi in sorted(ctx.prog.functions.items()):
+        if not q.startswith(("btclib.tx", "btclib.psbt", "btclib.block", "btclib.p2p")):
+            continue
+        # n = var_int.parse(stream, B) ... [T.parse(...) for _ in range(n)]
+        counts = {}
+        for a in own_nodes(fi.node):
+            if isinstance(a, ast.Assign) and isinstance(a.targets[0], ast.Name) and isinstance(a.value, ast.Call) and norm(a.value.func) == "var_int.parse" and len(a.value.args) == 2:
+                counts.setdefault(a.targets[0].id, []).append(a)
+        for c in own_nodes(fi.node):
+            if isinstance(c, ast.ListComp) and isinstance(c.elt, ast.Call) and isinstance(c.elt.func, ast.Attribute) and c.elt.func.attr == "parse" \
+                    and isinstance(c.elt.func.value, ast.Name) and c.elt.func.value.id in ELEMENT_MIN_SIZE:
+                it = c.generators[0].iter
+                if not (isinstance(it, ast.Call) and norm(it.func) == "range" and len(it.args) == 1 and isinstance(it.args[0], ast.Name) and it.args[0].id in counts):
+                    continue
+                # the latest assignment of the count before the comprehension
+                before = [a for a in counts[it.args[0].id] if a.lineno <= c.lineno]
+                if not before:
+                    continue
+                a = max(before, key=lambda x: x.lineno)
+                got = ctx.fold(a.value.args[1], fi.module)
+                kind = c.elt.func.value.id
+                rep.ob(rule, f"{q}:{kind}", got == expected(kind), fi.where(a),
+                       f"{kind}.parse runs under a count bounded by {norm(a.value.args[1])} = {got}" + ("" if got == expected(kind) else f", where a block has room for {expected(kind)} of them: a valid object does not parse back"))
+        for c in own_nodes(fi.node):
+            if isinstance(c, ast.Call) and call_name(c) == "_assert_map_count" and len(c.args) == 3 and isinstance(c.args[2], ast.Constant) and c.args[2].value in ELEMENT_MIN_SIZE:
+                got = ctx.fold(c.args[1], fi.module)
+                kind = c.args[2].value
+                rep.ob(rule, f"{q}:{kind}_maps", got == expected(kind), fi.where(c), f"the {kind} map count is bounded by {norm(c.args[1])} = {got}" + ("" if got == expected(kind) else f"; a transaction has room for {expected(kind)}"))
+    rep.floor(rule, 6)
+
+
+def rule_order_kept(ctx: Ctx, rep: Report) -> None:
+    """C05.order_kept: the JSON helpers of the psbt maps sort *maps* -- a dict has
+    no order of its own, and BIP174 wants the pairs sorted -- and nothing else:
+    the value of a pair that is a sequence (the MuSig2 participants of an
+    aggregate key, the leaves of a tree, the steps of a path) is written in the
+    order it has, which is content. `sorted()` over anything but a map's
+    `.items()` in an encode_/decode_ helper returns another object from
+    from_dict(to_dict(x))."""
+    rule = "C05.order_kept"
+    n = 0
+    for q, fi in sorted(ctx.prog.functions.items()):
+        if not (q.startswith("btclib.psbt.psbt_utils.") and fi.name.lstrip("_").startswith(("encode_", "decode_", "serialize_", "deserialize_", "parse_"))):
+            continue
+        n += 1
+        for c in own_nodes(fi.node):
+            if isinstance(c, ast.Call) and isinstance(c.func, ast.Name) and c.func.id in ("sorted", "reversed") and c.args:
+                a = c.args[0]
+                ok = isinstance(a, ast.Call) and isinstance(a.func, ast.Attribute) and a.func.attr == "items" and c.func.id == "sorted"
+                rep.ob(rule, f"{q}:{norm(a)[:40]}", ok, fi.where(c), "a map's pairs are sorted" if ok else
+                       f"`{norm(c)[:70]}` reorders what is not a map: the order of a sequence is content, and does not survive the round trip")
+        for c in own_nodes(fi.node):
+            if isinstance(c, ast.Call) and isinstance(c.func, ast.Attribute) and c.func.attr in ("sort", "reverse"):
+                rep.ob(rule, f"{q}:{norm(c)[:40]}", False, fi.where(c), f"`{norm(c)[:70]}` reorders a sequence in place")
+    rep.ob(rule, "scanned", True, "btclib/psbt/psbt_utils.py:1", f"{n} helpers")
+    rep.floor(rule, 8)
+
+
 RULES = [
+    ("C05.order_kept", rule_order_kept),
+    ("C05.count_bound_kind", rule_count_bound_kind),
     ("C05.zero_is_present", rule_zero_is_present),
     ("C05.reversal_parity", rule_reversal_parity),
     ("C05.wire_refusals_unconditional", rule_wire_refusals_unconditional),
